@@ -648,12 +648,32 @@ func runC19(cfg Cfg, ops []dtOp, res *TaskResult) (v *Violation) {
 	return nil
 }
 
+// crash level: a batch whose sealing record was torn leaves its records in the log for ever; they must stay dead
+// whatever later sessions commit (batch identifiers never repeat across restarts). Needs a container that already
+// exists, a torn update of it, later commands of another session and one more restart: deeper than the main level,
+// so it has its own small alphabet; every sequence ends with an implicit restart.
+func c19CrashAlphabet() []dtOp {
+	return []dtOp{
+		{C: "hset", Key: "k1", F: "f1"}, {C: "hset", Key: "k1", F: "f2"}, {C: "sadd", Key: "k2", F: "m1"},
+		{C: "sadd", Key: "k2", F: "m2"}, {C: "del", Key: "k1"},
+		{C: "restart", Dev: true}, {C: "crashtear", Dev: true},
+	}
+}
+
 func c19Tasks(tier string) []Task {
 	d, b := 4, 2
 	if tier == "thorough" {
 		d, b = 5, 2
 	}
-	alpha := c19Alphabet()
+	tasks := c19LevelTasks(fmt.Sprintf("d%db%d", d, b), c19Alphabet(), d, b, false)
+	cd := 6
+	if tier == "thorough" {
+		cd = 7
+	}
+	return append(tasks, c19LevelTasks(fmt.Sprintf("crash-d%db3", cd), c19CrashAlphabet(), cd, 3, true)...)
+}
+
+func c19LevelTasks(level string, alpha []dtOp, d, b int, finalRestart bool) []Task {
 	// reuse enumSeq through Op indices
 	idx := make([]Op, len(alpha))
 	for i, a := range alpha {
@@ -669,13 +689,16 @@ func c19Tasks(tier string) []Task {
 		for first := range alpha {
 			for second := range alpha {
 				cfg, first, second := cfg, first, second
-				tasks = append(tasks, Task{Level: fmt.Sprintf("d%db%d", d, b), Name: fmt.Sprintf("%s %s %s", cfg, alpha[first], alpha[second]), Fn: func(res *TaskResult) {
+				tasks = append(tasks, Task{Level: level, Name: fmt.Sprintf("%s %s %s %s", level, cfg, alpha[first], alpha[second]), Fn: func(res *TaskResult) {
 					enumSeq(idx, d, b, []int{first, second}, func(seq []Op) bool {
 						ops := make([]dtOp, len(seq))
 						for i, s := range seq {
 							var n int
 							fmt.Sscan(s.K, &n)
 							ops[i] = alpha[n]
+						}
+						if finalRestart {
+							ops = append(ops, dtOp{C: "restart"})
 						}
 						announce(func() string { return fmt.Sprint(ops) })
 						v := runC19(cfg, ops, res)
@@ -710,7 +733,7 @@ func init() {
 	register(&Check{
 		Prop:   "C19",
 		Engine: "seq",
-		Rule:   "all command sequences within (depth, deviation bound) over 26 mutating commands on two keys (all five types, deletion, re-creation with another type, clock advance past the TTL, restart); every reply is compared with a data-type model, and after every step a probe battery (every read command on every key/field/member) is compared with the model; across restart the battery must be unchanged. non-trivial = at least two different types were live during the sequence",
+		Rule:   "all command sequences within (depth, deviation bound) over 26 mutating commands on two keys (all five types, deletion, re-creation with another type, clock advance past the TTL, restart); every reply is compared with a data-type model, and after every step a probe battery (every read command on every key/field/member) is compared with the model; across restart the battery must be unchanged. non-trivial = at least two different types were live during the sequence. Crash level: sequences over 5 container commands, restart and crashtear (restart after a crash that tore the previous command's last byte off the log: the command is lost as a whole, the model is rolled back), each followed by an implicit restart: records of a torn batch must stay dead whatever later sessions commit",
 		Assumptions: []string{
 			"the clock (time.Now in package datatype) is owned by the harness: strictly monotone, advanced by 2 s by the Advance symbol; TTL is 1 s",
 			"not judged (sequence pruned there): commands of one type on a container of another type that was emptied but not deleted (Redis removes it, the code keeps its metadata). An expired string is absent for EVERY command",
